@@ -158,7 +158,7 @@ class Report(object):
             for rid in self.order:
                 r = self.rules[rid]
                 print('  %-16s %4d instances (min %d)%s' % (rid, r.instances, r.min_instances,
-                                                          '  VIOLATIONS: %d' % r.violations if r.violations else ''))
+                                                          '  not ok: %d' % r.violations if r.violations else ''))
             for ln in lines:
                 print(ln)
         return (1 if unlisted else 0), unlisted
